@@ -111,13 +111,18 @@ func (srv *Session) consumeSingleCommand(ctx context.Context, reader *buffer.Rea
 		return err
 	}
 
+	// NOTE: we increase the wait group by one in order to make sure that idle
+	// connections are not blocking a close. The closing state is checked and
+	// the command is registered within a single critical section: a close
+	// either waits for this command or the command is never started.
+	srv.mu.Lock()
 	if srv.closing.Load() {
+		srv.mu.Unlock()
 		return nil
 	}
 
-	// NOTE: we increase the wait group by one in order to make sure that idle
-	// connections are not blocking a close.
 	srv.wg.Add(1)
+	srv.mu.Unlock()
 	srv.logger.Debug("<- incoming command", slog.Int("length", length), slog.String("type", t.String()))
 	err = srv.handleCommand(ctx, conn, t, reader, writer)
 	srv.wg.Done()
